@@ -14,12 +14,13 @@ const (
 type Profile struct {
 	Name                                                               string
 	Publish, Pull, Ack, Nack, Delay, Advance, Seek, Snap, Maint, Sweep int
+	SetDelay                                                           int // change a subscription's injected delivery delay
 	Churn                                                              int // create/delete subscriptions and topics
 	NoSeek, NoDL, OrderedOnly                                          bool
 	BigAdvance                                                         bool
 }
 
-var ProfileAll = Profile{Name: "all", Publish: 5, Pull: 6, Ack: 3, Nack: 2, Delay: 2, Advance: 4, Seek: 1, Snap: 1, Maint: 2, Sweep: 1, Churn: 1}
+var ProfileAll = Profile{Name: "all", SetDelay: 1, Publish: 5, Pull: 6, Ack: 3, Nack: 2, Delay: 2, Advance: 4, Seek: 1, Snap: 1, Maint: 2, Sweep: 1, Churn: 1}
 
 type subState struct {
 	name string
@@ -43,7 +44,7 @@ func NewGen(seed int64, p Profile) *Gen {
 	return &Gen{R: rand.New(rand.NewSource(seed)), P: p}
 }
 
-var filters = []string{"", "", "", `attributes:x`, `attributes.x="1"`, `NOT attributes:x`, `hasPrefix(attributes.y,"a")`,
+var filters = []string{"", "", "", `attributes:z OR attributes:x OR attributes.y="ab"`, `attributes:x AND attributes:y AND NOT attributes:z`, `attributes:x`, `attributes.x="1"`, `NOT attributes:x`, `hasPrefix(attributes.y,"a")`,
 	`attributes:x OR attributes.y!="b"`, `attributes:x AND (NOT attributes.y="b" OR attributes:z)`, `-attributes:"x"`}
 
 func (g *Gen) pick(ss []string) string { return ss[g.R.Intn(len(ss))] }
@@ -291,6 +292,13 @@ func (g *Gen) Next(now int64) Op {
 		}},
 		{p.Sweep, func() (Op, bool) {
 			return Op{K: "dl_sweep", Max: 1 + g.R.Intn(3)}, true
+		}},
+		{p.SetDelay, func() (Op, bool) {
+			s := g.liveSub()
+			if s == nil {
+				return Op{}, false
+			}
+			return Op{K: "set_delay", Sub: s.name, D: []int64{0, 2 * Sec, 30 * Sec, 500 * Ms}[g.R.Intn(4)]}, true
 		}},
 		{p.Churn, func() (Op, bool) {
 			switch g.R.Intn(6) {
